@@ -510,6 +510,14 @@ def search(ctx):
         else:
             prof = ['ents', 'mixed', 'brushes', 'fix', 'ents'][i % 5]
             h = gen_history(rng, rng.randrange(5, 31), prof)
+        if i >= len(extra) and i % 4 == 1:
+            # error paths: after each of up to 3 setnode/ent steps, an assignment that raises and is caught
+            h = list(h)
+            spots = [k for k, op in enumerate(h) if op[0] in ('ent', 'addent', 'setnode')]
+            for k in sorted(rng.sample(spots, min(3, len(spots))), reverse=True):
+                if h[k][0] == 'ent' or len(h[k]) > 1:
+                    h.insert(k + 1, ['setnode_raise', h[k][1], rng.randrange(8)])
+            ctx.count('search-history with raising assignments')
         try:
             _, viol = c08_impl.run_history(h, observe=False, oracle=True)
         except Exception as e:
